@@ -22,14 +22,14 @@ CHECKS = {
     ),
     "C12": dict(
         category="proof",
-        text="PARTIAL. Lean 4 theorems about a hand-written model of simulation/simulator.py whose random sources are an explicit oracle tape: sim_eq_sem (for every program -- expression/choice/Bernoulli/Categorical/DiscreteUniform assignments, guarded assignments with default, if/elif/else, simultaneous assignment through the parser's temporaries, loop guard with stuttering -- every n and every initial state, the strict path enumeration of the model equals Polar.run of the reference semantics weight by weight and store by store whenever both return), simPaths_sound (every enumerated tape replays through the tape-driven interpreter to the listed state), simPaths_strict, sampler_params_agree / sampler_support_agree (the scipy call coded in each sample() is the documented parameterisation with the declared support, for every family; TruncNormal with sigma^2 != 0) and truncnormal_support (support exactly [a, b] for sigma > 0). Tie to the code (sampled, differential): the real Simulator(n).simulate / execute on the parsed un-normalised program with random.choices, random.choice and every scipy rvs scripted, ALL paths of seeded discrete programs (dyadic constants, n<=3 quick / 4 thorough, templates to n=7) enumerated; tapes, weights and final states equal the model's sim_paths, and the weighted states after every iteration equal the exact joint law (op dist) as exact rationals; the arguments actually passed to scipy equal samplerCall and are compared with samplerSpecCall; support membership of 2000 (quick) real samples under a fixed numpy seed; the CLI SimulationAction on scripted runs. What the model cannot exhibit and is therefore NOT covered: IEEE rounding in arithmetic and in evaluate_cop on float states, the internals of scipy's and random's generators (their laws are taken from the documentation), EvaluationException timing on symbolic parameters; continuous draws are outside sim_eq_sem (sampler theorems only).",
+        text="PARTIAL. Lean 4 theorems about a hand-written model of simulation/simulator.py whose random sources are an explicit oracle tape: sim_eq_sem (for every program -- expression/choice/Bernoulli/Categorical/DiscreteUniform assignments, guarded assignments with default, if/elif/else, simultaneous assignment through the parser's temporaries, loop guard with stuttering -- every n and every initial state, the strict path enumeration of the model equals Polar.run of the reference semantics weight by weight and store by store whenever both return), simPaths_sound (every enumerated tape replays through the tape-driven interpreter to the listed state), simPaths_strict, sampler_params_agree / sampler_support_agree (the scipy call coded in each sample() is the documented parameterisation with the declared support, for every family; TruncNormal with sigma^2 != 0) and truncnormal_support (support exactly [a, b] for sigma > 0). Tie to the code (sampled, differential): the real Simulator(n).simulate / execute on the parsed un-normalised program with random.choices, random.choice and every scipy rvs scripted, ALL paths of seeded discrete programs (dyadic constants, n<=3 quick / 4 thorough, templates to n=7) enumerated; tapes, weights and final states equal the model's sim_paths, and the weighted states after every iteration equal the exact joint law (op dist) as exact rationals; the arguments actually passed to scipy equal samplerCall and are compared with samplerSpecCall; support membership of 2000 (quick) real samples under a fixed numpy seed; the CLI SimulationAction on scripted runs; ONE simulate call with 2 and 3 runs, all resolutions of the scripted sources enumerated: the joint law of the runs' initial and final states is the product law (programs with choices / Bernoulli / Categorical / DiscreteUniform draws in the initial section included); the scipy arguments of EVERY sampler call along 2-3 runs of programs whose distribution parameters change with the state (Normal, Uniform, Laplace, DistExp, Gamma, Beta, TruncNormal, Bernoulli) against samplerSpecCall on the current state. What the model cannot exhibit and is therefore NOT covered: IEEE rounding in arithmetic and in evaluate_cop on float states, the internals of scipy's and random's generators (their laws are taken from the documentation), EvaluationException timing on symbolic parameters; continuous draws are outside sim_eq_sem (sampler theorems only).",
         design_ref="§4 C12, §2.2, notes/C12.md",
         note="Trusted: Lean kernel + propext/Classical.choice/Quot.sound; Lean compiler for polar-model; harness generator/printer, dyadic rewriting of constants, scripted sources (probability of the i-th answer = w_i/sum(w) for random.choices, 1/len for random.choice, p/1-p for bernoulli.rvs); scipy.stats documentation of loc/scale/shape; exactness of double arithmetic on dyadic rationals within 53 bits. Findings F7 (TruncNormal.sample raw bounds) and F45 (simulated P(X >= c) lost the boundary X = c) were found by this check and are fixed in /repo; a recurrence is a VIOLATION.",
         technique="Lean 4 proof (simulator model = reference semantics by mutual induction; sampler parameterisations) + exhaustive path enumeration of the real simulator under scripted random sources against the Lean model and the exact law",
     ),
     "C16": dict(
         category="proof",
-        text="Rational lists: Lean 4 theorems, no sampled step inside them: relation_iff_valuations (prod b_i^e_i = 1 iff all p-adic valuation sums vanish and the exponent sum over the negative bases is even); c16_code_correct: the algorithm AS CODED (model latticeAsCoded: is_trivially_empty shortcut, multiplicity/parity system in the order the code builds it, _integer_kernel = unimodular row reduction of [A^T | I] with the code's pivot rule, floor division, swap and row order) returns a Z-basis of the exponent lattice for every list of non-zero rationals (integerKernelAsCoded_isBasis incl. termination of the Euclid loop, isTriviallyEmpty_sound); c16_rational / intKernel_isBasis (an independent verified basis) and c16_check_iff (the executable verdicts relationHolds / independent / inIntSpan hold iff the proposed rows are a Z-basis - the judge is exact). The tie to the code is sampled: ExponentLattice(bs).compute_basis() of the working tree runs on corpus + seeded lists (repetitions, units, shared primes with different multiplicities, negatives, reciprocals, k <= 6); every answer must equal the model's rows one for one and is judged by the verified procedures. Irrational/complex lists (compute_basis_kauers) are a TEST, not a proof: soundness of each row is decided exactly (pair arithmetic in Q(sqrt D), proved exact by relationHoldsQuad_iff; sympy minimal_polynomial for mixed fields), completeness only for exponent vectors inside a box |e_i| <= 4..8; LLL and Faccin's bound are not modelled.",
+        text="Rational lists: Lean 4 theorems, no sampled step inside them: relation_iff_valuations (prod b_i^e_i = 1 iff all p-adic valuation sums vanish and the exponent sum over the negative bases is even); c16_code_correct: the algorithm AS CODED (model latticeAsCoded: is_trivially_empty shortcut, multiplicity/parity system in the order the code builds it, _integer_kernel = unimodular row reduction of [A^T | I] with the code's pivot rule, floor division, swap and row order) returns a Z-basis of the exponent lattice for every list of non-zero rationals (integerKernelAsCoded_isBasis incl. termination of the Euclid loop, isTriviallyEmpty_sound); c16_rational / intKernel_isBasis (an independent verified basis) and c16_check_iff (the executable verdicts relationHolds / independent / inIntSpan hold iff the proposed rows are a Z-basis - the judge is exact). The tie to the code is sampled: ExponentLattice(bs).compute_basis() of the working tree runs on corpus + seeded lists (repetitions, units, shared primes with different multiplicities, negatives, reciprocals, k <= 6); every answer must equal the model's rows one for one and is judged by the verified procedures. General (Kauers) path, constructed-relation lists: bases sign*g^a*h^b for multiplicatively independent generators with exponents up to +-300 (non-integer bases such as 1/2^100 next to sqrt 2); the lattice is the integer kernel of the exponent rows by construction and the code's rows are judged exactly (soundness and completeness, no enumeration bound) by the verified lattice_check on the rational shadow list. Other irrational/complex lists are a TEST, not a proof: soundness of each row is decided exactly (pair arithmetic in Q(sqrt D), proved exact by relationHoldsQuad_iff; sympy minimal_polynomial for mixed fields), completeness only for exponent vectors inside a box |e_i| <= 4..8; LLL and Faccin's bound are not modelled.",
         design_ref="§4 C16, §2.5, notes/C16.md",
         note="Trusted: Lean kernel + propext/Classical.choice/Quot.sound; Lean compiler for polar-model; Mathlib's padicValRat/zpow; harness generator and conversion of \"p/q\" strings to sympy numbers; sympy factorint (the model has its own certified trial division); for mixed-field lists sympy minimal_polynomial and 80-digit evalf. The model keeps only the I-part of the rows of [A^T | I] and reads the A^T-entries as dot products (equal by linearity); it is tied to the code differentially (identical rows on every sampled list). F4 / F4b are repaired in /repo (526383e, 41c095b); their inputs are regression cases and a recurrence is a VIOLATION. Exceptions of the Kauers path (TypeError in faccin_bound / rounding) are counted, not judged.",
         technique="Lean 4 proof (valuation characterisation, correctness of the coded integer-kernel algorithm, exact checker) + row-for-row differential correspondence of the real ExponentLattice against the Lean model; bounded enumeration test for algebraic bases",
